@@ -181,6 +181,11 @@ theorem partial_lookup_kills_session (T : Tables) (hT : T.namesTotal = false) (s
   simp only [h4, h5, h6, Bool.false_eq_true, if_false, fallback, hT, hname, not_false_eq_true, and_self,
     if_true, St.fail, and_true]
 
+/-- the reply is built with fixed-width encoders only (AST of `Transport.run`, read on every run): the model's
+UNIMPLEMENTED carries the sequence number as a number; on the wire it is a uint32 for every value up to 2^32 − 1, which
+`Message.add()` (adaptive integers: 0xff + mpint from 0xff000000 up) would not give -/
+theorem reply_uses_fixed_width_encoding : Generated.C12.runRepliesUseFixedWidth = true := by decide
+
 /-- the numbers the model uses literally are the ones paramiko/common.py defines -/
 theorem constants_match :
     Generated.C12.msgConsts.lookup "MSG_DISCONNECT" = some MSG_DISCONNECT ∧
